@@ -909,4 +909,31 @@ theorem C05_code_write (I : String → Nat → Rat → Rat) (hI : ZeroFn I) (els
   simp [streamSem]
 
 
+open Atsim.Gen.Logic in
+/-- the `dr` property of the tabulation object is the model's step -/
+theorem eamtab_dr_eq (nr nrho : Nat) (cut cutrho : Rat) (a : List EamRec) (b c d : List PotRec) :
+    eamtab_dr ⟨(nr : Int), cut, (nrho : Int), cutrho, a, b, c, d⟩ = tabStep cut nr := by
+  simp only [eamtab_dr, tabStep]
+  push_cast
+  rfl
+
+open Atsim.Gen.Logic in
+/-- the `drho` property of the tabulation object is the model's step -/
+theorem eamtab_drho_eq (nr nrho : Nat) (cut cutrho : Rat) (a : List EamRec) (b c d : List PotRec) :
+    eamtab_drho ⟨(nr : Int), cut, (nrho : Int), cutrho, a, b, c, d⟩ = tabStep cutrho nrho := by
+  simp only [eamtab_drho, tabStep]
+  push_cast
+  rfl
+
+open Atsim.Gen.Logic Atsim.TokSem in
+/-- **code tie (the tabulation object)**: `TABEAM_EAMTabulation.write` writes `tabeamTab false` (empty title) -/
+theorem C05_code_tabulation_write (I : String → Nat → Rat → Rat) (hI : ZeroFn I) (els : List El) (pairs dip quad : List PairDecl)
+    (hnd : (els.map (·.sp)).Nodup) (cut : Rat) (nr : Nat) (cutrho : Rat) (nrho : Nat) (out : List Tok) :
+    streamSem I (tabeam_tab_write ⟨(nr : Int), cut, (nrho : Int), cutrho, els.map toEam, pairs.map toPot, dip.map toPot, quad.map toPot⟩ out) =
+      streamSem I out ++ tabeamSem I "" (tabeamTab false els pairs cut nr cutrho nrho) := by
+  unfold tabeam_tab_write
+  simp only [eamtab_dr_eq, eamtab_drho_eq]
+  rw [C05_code_write I hI els pairs hnd]
+  rfl
+
 end Atsim.C05
